@@ -39,14 +39,20 @@ theorem dstep_scan_facts {s s' : St} (h : dstep s .scan = some s') :
                   hs := s.hs.mapIdx fun i h => hostStep s.cfg (s.script i) s.now h .scan } := by
   simp only [dstep] at h
   split at h
-  · rename_i hg; simp only [Option.some.injEq] at h; exact ⟨hg, h.symm⟩
+  · rename_i hg; simp only [Option.some.injEq] at h; exact ⟨hg.1, h.symm⟩
   · simp at h
 
 theorem step_tick_facts {s s' : St} (h : step s .tick = some s') :
     quiescent s = true ∧ s' = { s with now := s.now + 1 } := by
   simp only [step] at h
   split at h
-  · rename_i hq; simp only [Option.some.injEq] at h; exact ⟨hq, h.symm⟩
+  · rename_i hq; simp only [Option.some.injEq] at h; exact ⟨hq.1, h.symm⟩
+  · simp at h
+
+theorem step_tick_notret {s s' : St} (h : step s .tick = some s') : s.fan.dpc ≠ .returned := by
+  simp only [step] at h
+  split at h
+  · rename_i hq; exact hq.2
   · simp at h
 
 theorem step_eq_dstep {s : St} {l : Label} (hl : l ≠ .tick) : step s l = dstep s l := by
